@@ -148,9 +148,12 @@ def gate_runs(ctx, cases, nruns):
         row = w.mknode(None, "n", g, stype="F", host="h1", root=str(root), auto_verify=kk)
         acq = w.ArchiveAcq.create(name="acq")
         old = datetime.datetime(2000, 1, 1)
+        states = {}
         for i in range(n):
             f = w.ArchiveFile.create(acq=acq, name=f"f{i}", size_b=1, md5sum="0" * 32)
-            w.ArchiveFileCopy.create(file=f, node=row, has_file="Y", wants_file="Y", size_b=1, last_update=old)
+            # tracked copies are all that are not absent: healthy, corrupt and (between passes) suspect ones
+            c = w.ArchiveFileCopy.create(file=f, node=row, has_file=rng.choice("YYYX"), wants_file="Y", size_b=1, last_update=old)
+            states[c.id] = c.has_file
         queue = FairMultiFIFOQueue()
         un = U.UpdateableNode(queue, w.StorageNode.get(id=row.id))
         calls = []
@@ -194,7 +197,8 @@ def gate_runs(ctx, cases, nruns):
                 un.update_idle()
                 made = len(calls) - ncalls
                 drain()
-                w.ArchiveFileCopy.update(has_file="Y", last_update=old).where(w.ArchiveFileCopy.node == row).execute()
+                for cid, st in states.items():
+                    w.ArchiveFileCopy.update(has_file=st, last_update=old).where(w.ArchiveFileCopy.id == cid).execute()
                 expect = 1 if (idle0 and kind != "cancelled" and idle1) else 0
                 hist.append((kind, idle0, idle1, made))
                 GATE_CASES.append(ctup(cbool(idle0), cbool(kind != "cancelled"), cbool(idle1), cz(kk), cbool(made > 0)))
@@ -211,6 +215,14 @@ def gate_runs(ctx, cases, nruns):
                     break
             for c in calls:
                 cases.append(term(live, c[0], c[1], c[2]))
+            bound = -(-n // kk) + 1
+            if len(calls) >= bound:
+                seen = set()
+                for c in calls[:bound]:
+                    seen |= set(c[2][0])
+                if set(live) - seen:
+                    ctx.fail("C19:coverage-daemon", f"tracked copies {sorted(set(live) - seen)} (recorded states {[states[x] for x in sorted(set(live) - seen)]}) were not selected in the first {bound} auto-verify batches "
+                             f"(N={n}, k={kk})", {"family": "gate", "copies": n, "auto_verify": kk, "states": list(states.values())})
         finally:
             QW.QueryWalker.get = orig
 
